@@ -7,6 +7,7 @@
 package vws
 
 import (
+	"io"
 	"errors"
 	"net"
 	"net/http"
@@ -74,6 +75,31 @@ func ConnReadMessage(c *websocket.Conn) (int, []byte, error) {
 	case <-s.closeq:
 		return 0, nil, ErrClosed
 	}
+}
+
+// frameReader: what NextReader hands out - the payload of one frame, read piecewise; io.EOF at its end (and at once
+// for an empty frame, as gorilla does).
+type frameReader struct {
+	data []byte
+	pos  int
+}
+
+func (r *frameReader) Read(p []byte) (int, error) {
+	if r.pos >= len(r.data) {
+		return 0, io.EOF
+	}
+	n := copy(p, r.data[r.pos:])
+	r.pos += n
+	return n, nil
+}
+
+// ConnNextReader: gorilla's streaming read API (one reader per frame).
+func ConnNextReader(c *websocket.Conn) (int, io.Reader, error) {
+	mt, data, err := ConnReadMessage(c)
+	if err != nil {
+		return 0, nil, err
+	}
+	return mt, &frameReader{data: data}, nil
 }
 
 func ConnWriteMessage(c *websocket.Conn, mt int, data []byte) error {
